@@ -16,7 +16,7 @@ import (
 	"verifharness/internal/val"
 )
 
-var c16Floor = []string{"tpl.echo", "tpl.where", "tpl.in", "tpl.between", "tpl.func", "tpl.limit", "tpl.adjacent", "tpl.repeat", "tpl.protected.single", "tpl.protected.double", "tpl.protected.backtick", "tpl.protected.backtick-backslash", "tpl.protected.comment", "tpl.pg-ident", "tpl.idiomatic-array", "comment.tab", "comment.backslash-eol", "arg.float.huge", "err.missing.huge", "comment.hash", "comment.block-not-nested", "comment.minus-minus", "comment.banner", "str.bad-utf8", "tpl.badutf8", "tpl.protected.backslash", "err.nan",
+var c16Floor = []string{"tpl.echo", "tpl.where", "tpl.in", "tpl.between", "tpl.func", "tpl.limit", "tpl.adjacent", "tpl.repeat", "tpl.protected.single", "tpl.protected.double", "tpl.protected.backtick", "tpl.protected.backtick-backslash", "tpl.protected.comment", "tpl.pg-ident", "tpl.idiomatic-array", "comment.tab", "comment.backslash-eol", "arg.float.huge", "err.missing.huge", "comment.hash", "comment.block-not-nested", "comment.minus-minus", "comment.banner", "str.bad-utf8", "tpl.pg-ident.backslash-end", "tpl.badutf8", "tpl.protected.backslash", "err.nan",
 	"arg.string", "arg.int", "arg.int.native", "arg.float.native", "arg.negint", "arg.float", "arg.bool", "arg.nil", "str.quote", "str.backslash", "str.comment", "str.control", "str.keyword", "str.multibyte", "err.missing", "err.unused", "err.dollar0", "prepared", "concurrent"}
 
 func init() {
@@ -279,6 +279,8 @@ func c16Run(c *fw.Case) {
 		kind, variant = "tpl.protected.comment", 8
 	case "comment.banner":
 		kind, variant = "tpl.protected.comment", 6
+	case "tpl.pg-ident.backslash-end":
+		kind, variant = "tpl.pg-ident", 1
 	}
 	if force == "concurrent" {
 		force = ""
@@ -426,6 +428,13 @@ func c16Run(c *fw.Case) {
 			t.args[b] = gen.Pick(c.R, []string{"say \"hi\"", "\"", "a \"quoted\" word", "`\"`"})
 		}
 		t.pieces, t.slots = []string{"SELECT ", " AS a, ", " AS b, \"s1\" AS n, \"rid\" FROM t"}, []int{a, b}
+		if variant == 1 || c.Chance(0.4) {
+			// a double-quoted identifier that ends in a backslash, a placeholder
+			// behind it: the sanitizer and the dialect rewrite agree on where it ends
+			t.pieces[1] = " AS \"a\\\\\", "
+			t.note = "pg-backslash-alias"
+			feats = append(feats, "tpl.pg-ident.backslash-end")
+		}
 	case "tpl.idiomatic-array":
 		// evaluated under IdomaticArrays: the array literals of the template
 		// stay what they are whatever the arguments in front of or inside them hold
@@ -598,7 +607,11 @@ func c16Run(c *fw.Case) {
 		}
 		var want []any
 		for _, r := range tbl.Rows {
-			want = append(want, map[string]any{"a": t.args[0], "b": t.args[1], "n": r["s1"], "rid": r["rid"]})
+			first := "a"
+			if t.note == "pg-backslash-alias" {
+				first = "a\\"
+			}
+			want = append(want, map[string]any{first: t.args[0], "b": t.args[1], "n": r["s1"], "rid": r["rid"]})
 		}
 		det["expected"] = val.Show(want)
 		if !(len(want) == 0 && len(o.Rows) == 0) && !val.SameSeq(o.Rows, want) {
